@@ -791,3 +791,139 @@ pub fn task_campaign(cfg: &Cfg, rep: &mut Report, n: usize) {
     }
   }
 }
+
+// ---------------------------------------------------------------------------
+// free-run (no baton): plain OS threads; used under Miri, whose own
+// preemptive scheduler and deadlock / data-race detection are the oracle
+// ---------------------------------------------------------------------------
+
+pub fn run_scen_free(s: &Scen) -> Outcome {
+  let prev = conc::mode();
+  conc::set_mode(conc::OFF);
+  crate::vtime::reset();
+  let log = Log::new();
+  let pool = Pool::new();
+  let hot: Vec<SubjectThreads<V, E>> = (0..s.n_hot).map(|_| SubjectThreads::default()).collect();
+  let beh = BehaviorSubject::<V, SubjectThreads<V, E>>::new(V::I(5));
+  let cx = threads::Ctx { hot: hot.clone(), stash: StashT::default(), sched: pool.scheduler(), log: log.clone(), base: Instant::now() };
+  let subs: Arc<Mutex<Vec<Option<BoxSubscriptionThreads>>>> = Arc::new(Mutex::new(vec![]));
+  let mk_sub = |id: u32| {
+    let p = Probe::new(id, &log);
+    let u = match &s.kind {
+      Kind::Subject => BoxSubscriptionThreads::new(hot[0].clone().actual_subscribe(p)),
+      Kind::Behavior => BoxSubscriptionThreads::new(beh.clone().actual_subscribe(p)),
+      Kind::Pipe(c) => BoxSubscriptionThreads::new(threads::build(c, &cx).actual_subscribe(p)),
+    };
+    subs.lock().unwrap().push(Some(u));
+  };
+  for i in 0..s.initial_subs {
+    mk_sub(1 + i as u32);
+  }
+  let left = Arc::new(AtomicUsize::new(s.threads.len()));
+  let mut hs = vec![];
+  for (ti, script) in s.threads.iter().enumerate() {
+    let (script, hot, beh, kind, subs, left) = (script.clone(), hot.clone(), beh.clone(), s.kind.clone(), subs.clone(), left.clone());
+    hs.push(std::thread::spawn(move || {
+      set_thread_id(ti as u32 + 1);
+      let mut counter = 0;
+      for op in script {
+        match op {
+          TOp::Next(k) => {
+            counter += 1;
+            let v = V::I((ti as i64 + 1) * 1000 + counter);
+            match kind {
+              Kind::Behavior => {
+                let mut b = beh.clone();
+                Observer::<V, E>::next(&mut b, v)
+              }
+              _ => hot[k].clone().next(v),
+            }
+          }
+          TOp::Complete(k) => match kind {
+            Kind::Behavior => Observer::<V, E>::complete(beh.clone()),
+            _ => hot[k].clone().complete(),
+          },
+          TOp::Error(k) => match kind {
+            Kind::Behavior => Observer::<V, E>::error(beh.clone(), 7),
+            _ => hot[k].clone().error(7),
+          },
+          TOp::Unsub(k) => {
+            let u = subs.lock().unwrap().get_mut(k).and_then(|u| u.take());
+            if let Some(u) = u {
+              u.unsubscribe()
+            }
+          }
+          TOp::UnsubSubject => match kind {
+            Kind::Behavior => beh.clone().unsubscribe(),
+            _ => hot[0].clone().unsubscribe(),
+          },
+          TOp::Subscribe | TOp::Peek => {}
+        }
+      }
+      left.fetch_sub(1, Ordering::SeqCst);
+    }));
+  }
+  for wi in 0..s.workers {
+    let (pool, left) = (pool.clone(), left.clone());
+    hs.push(std::thread::spawn(move || {
+      set_thread_id(10 + wi as u32);
+      let mut spins = 0;
+      loop {
+        for (id, _) in crate::vtime::pending() {
+          crate::vtime::fire(id);
+        }
+        let ran = pool.run_one(spins);
+        if !ran && left.load(Ordering::SeqCst) == 0 && pool.idle() && crate::vtime::pending_count() == 0 {
+          break;
+        }
+        spins += 1;
+        if spins > 2000 {
+          break;
+        }
+        std::thread::yield_now();
+      }
+    }));
+  }
+  let mut panics = vec![];
+  for (i, h) in hs.into_iter().enumerate() {
+    if h.join().is_err() {
+      panics.push((i, "thread panicked".to_string()));
+    }
+  }
+  conc::set_mode(prev);
+  let baton = BatonOutcome { panics, finished: vec![true; s.threads.len()], ..Default::default() };
+  Outcome { baton, evs: log.evs(), overlaps: log.overlaps(), peek_at_end: None, spawned_tasks: 0 }
+}
+
+/// `--mode miri`: a handful of tiny scenarios per process; prints one JSON line
+pub fn miri_main(cfg: &Cfg) {
+  let mut r = Rng::new(cfg.seed ^ 0x3141);
+  let mut results = vec![];
+  let fams: Vec<usize> = match cfg.prop.as_str() {
+    "C06" => vec![0],
+    "C12" => vec![1],
+    "C15" => vec![10],
+    _ => (0..FAMILIES).collect(),
+  };
+  for i in 0..cfg.n(2, 3) {
+    // every other scenario is the merge_all family (queued inners + unsubscribe: the richest lock graph)
+    let fam = if fams.len() > 1 && i % 2 == 1 { 9 } else { fams[(cfg.seed as usize + i * 7) % fams.len()] };
+    let mut s = random_scen(&mut r, fam);
+    // tiny: two threads with at most two operations each (merge_all: three threads, three operations)
+    let (nt, no) = if fam == 9 { (3, 3) } else { (2, 2) };
+    s.threads.truncate(nt);
+    for t in s.threads.iter_mut() {
+      t.truncate(no);
+    }
+    if fam == 9 && !s.threads.iter().flatten().any(|op| matches!(op, TOp::Unsub(_))) {
+      s.threads[0].push(TOp::Unsub(0));
+    }
+    let o = run_scen_free(&s);
+    let v = universal(&o).or_else(|| match s.kind {
+      Kind::Subject => common_order(&o),
+      _ => None,
+    });
+    results.push(json!({"scenario": s.name, "events": o.evs.len(), "violation": v.map(|(k, d)| json!({"kind": k, "detail": d}))}));
+  }
+  println!("MIRI-RESULT {}", serde_json::to_string(&results).unwrap());
+}
